@@ -665,11 +665,17 @@ impl http_body::Body for UnknownLen {
     }
     // default is_end_stream() = false, default size_hint() = (0, None)
 }
-struct Streamer { known: bool }
+struct Streamer { known: bool, wrapped: bool }
 #[async_trait::async_trait]
 impl s3s::S3 for Streamer {
     async fn get_object(&self, _req: s3s::S3Request<s3s::dto::GetObjectInput>) -> s3s::S3Result<s3s::S3Response<s3s::dto::GetObjectOutput>> {
         let frames: std::collections::VecDeque<bytes::Bytes> = ["streamed ", "object ", "ok!"].iter().map(|s| bytes::Bytes::from_static(s.as_bytes())).collect();
+        if self.wrapped {
+            // StreamingBlob::wrap over a stream whose size hint is informative: it counts the 3 CHUNKS, not the 19 bytes
+            let items: Vec<Result<bytes::Bytes, std::io::Error>> = frames.into_iter().map(Ok).collect();
+            let out = s3s::dto::GetObjectOutput { body: Some(s3s::dto::StreamingBlob::wrap(futures::stream::iter(items))), ..Default::default() };
+            return Ok(s3s::S3Response::new(out));
+        }
         let body = if self.known {
             s3s::Body::from(bytes::Bytes::from_static(b"streamed object ok!"))
         } else {
@@ -684,8 +690,8 @@ impl s3s::S3 for Streamer {
 /// delivers, and the bytes must arrive
 pub fn body_length() -> Value {
     let mut all = Vec::new(); let mut first_bad: Option<&str> = None;
-    for (name, known) in [("unknown length (size hint 0..)", false), ("known length 19", true)] {
-        let svc = s3s::service::S3ServiceBuilder::new(Streamer { known }).build();
+    for (name, known, wrapped) in [("unknown length (size hint 0..)", false, false), ("known length 19", true, false), ("StreamingBlob::wrap over a stream of 3 chunks", false, true)] {
+        let svc = s3s::service::S3ServiceBuilder::new(Streamer { known, wrapped }).build();
         let req = http::Request::builder().method("GET").uri("/bkt/key").body(s3s::Body::empty()).unwrap();
         let rt = tokio::runtime::Builder::new_current_thread().enable_all().build().unwrap();
         let (status, end_before, upper, got) = rt.block_on(async {
